@@ -54,7 +54,9 @@ func spinBarrier(tw *traceWriter, k, m, rounds int) {
 			runtime.Gosched()
 		}
 		atomic.StoreInt32(&goFlag, 1)
-		deadline := time.Now().Add(250 * time.Millisecond)
+		// a release that blocks (the legacy check-then-send) never returns; one that is merely waiting for a CPU on a
+		// loaded machine does: the deadline is generous so that load is never mistaken for blocking
+		deadline := time.Now().Add(15 * time.Second)
 		for atomic.LoadInt32(&returned) < int32(m) && time.Now().Before(deadline) {
 			time.Sleep(200 * time.Microsecond)
 		}
@@ -65,6 +67,7 @@ func spinBarrier(tw *traceWriter, k, m, rounds int) {
 			for i := 0; i < stuck+k; i++ {
 				b.AcquireGzipWriter()
 			}
+			break // one witness per capacity is enough (each stuck round waits for the whole deadline)
 		}
 	}
 }
